@@ -30,3 +30,19 @@ reg("C11", "property-based testing against a rigorous ball-arithmetic enclosure 
 reg("C07", "property-based differential testing (proptest): num-bigint digits, std pad_integral + u128/i128 as layout reference, reference parser from the rustdoc grammar, own two's-complement decoder",
     "Generated integers on every printer/parser size threshold (digits per word, 256-word chunks, divide-and-conquer levels, bit-packed radices straddling words) × 35 radices × 208 format specs × 5 formatting traits; valid, single-edit-mutated and arbitrary Unicode input strings through the four parse entry points; bytes (two's complement) and bit chunks round trips and raw decoding. Digits are compared with num-bigint, layout with Rust's own pad_integral and primitive formatting, parsing with a reference parser written from the rustdoc grammar.",
     TRUST)
+
+reg("C04", "stateful property-based testing: operation sequences over a value pool with a num-rational BigRational model alongside, plus stateless all-call-forms differential (proptest)",
+    "Seed rationals (a·g)/(b·g) with shared factors (zero numerators, integers, denominators 1 and 2^k, 1-3 and 10-40 word parts) fill a pool of 4 RBig + 4 Relaxed; up to 25/40 steps of + - * / % and the Euclidean trio in every ownership/assign form, mixed UBig/IBig forms on either side, pow sqr cubic inv neg abs signum fract split_at_point clone_from, every constructor, relax/canonicalize, results fed back. After every step every pool value is read through raw words: value = model, den >= 1, RBig parts = reduced fraction (gcd 1, zero 0/1), Relaxed without common factor 2; zero divisors/denominators must panic, nothing else may; % only as far as every reading supports, Euclidean forms in full.",
+    TRUST + " num-rational's own reduction is the reference for lowest terms.")
+
+reg("C10", "property-based testing against the definitions evaluated on exact rationals (proptest, 107 sub-instantiations over 6 modes × 5 bases)",
+    "Generated floats with <= p digits in the classes the code branches on (|x| < B^-2 with -exponent beyond the precision, n + 1/2 and one unit either side, integers, mixed digits, exponents to ±400, unlimited precision), rationals with ties, and (integer, fraction) pairs with both sign agreements for the two public rounding primitives; trunc/floor/ceil/round/fract/split_at_point/to_int/with_precision and round_fract/round_ratio compared with floor/ceil/trunc/mode(x) computed exactly, plus Exact<=>no fraction and AddOne/SubOne direction. Only values and flags are judged, not the precision metadata of results.",
+    TRUST)
+
+reg("C12", "property-based testing by construction against defining (in)equalities in num-bigint (proptest) + exhaustive enumeration of u8 pairs / u8,u16 values",
+    "gcd/gcd_ext of UBig/IBig/mixed/primitives on pairs built as (g·x, g·y), Fibonacci-like pairs, continued fractions with chosen quotients around 2^63/2^64, a = b·q + r with q ≈ 2^64·k, zero low words/bits, one or both operands zero: g equals num-integer's gcd and s·a + t·b = g exactly; sqrt/cbrt/nth_root/sqrt_rem/cbrt_rem on x = s²+r and x = rⁿ + {0, ±1, random} for every word count 0..8 and larger: rⁿ <= x < (r+1)ⁿ, rem = x − rⁿ; ilog at bᵉ + {0, ±1}: bᵉ <= |x| < bᵉ⁺¹; remove: exact multiplicity and cofactor; documented panics asserted with their message.",
+    TRUST + " num-integer's BigUint gcd is the reference gcd (self-checked per case by divisibility and coprime cofactors).")
+
+reg("C18", "property-based testing against brute-force and independent Stern-Brocot/Farey oracles with own IEEE and FBig rounding definitions (proptest, 18 mode×base instantiations)",
+    "Interval end points from all classes (equal, swapped, zero, integer, straddling, negative, u = l ± 1/huge, shared continued-fraction prefixes), denominator limits relative to the convergents of x, every finite f32/f64 class plus NaN/inf, FBig in 3 bases × 6 modes × precisions 0..40; simplest_in / simplest_from_* must equal the unique simplest fraction of the exact open interval resp. of the exact rounding interval, next_up/next_down must equal the Farey neighbours (accelerated walk cross-checked by brute force and the extended-Euclid adjacency test), nearest the closer one with sign(result − self), is_simpler_than the documented lexicographic order.",
+    TRUST + " ErrorBounds is only required to cover the exact rounding interval; tightness is judged through simplest_from_float. Limits whose linear Farey walk would exceed 150k steps are not executed.")
